@@ -98,6 +98,7 @@ def runHistory (r : Report) (sec line : Nat) (kind : String) (n : Nat) (obs : Li
   let mut m : HistMon := { cap := n, inside := [] }
   let mut r := r
   let mut free : Option Nat := none
+  let mut freeSkip := false
   let mut enters := 0
   let mut panics := 0
   let mut refusals := 0
@@ -106,9 +107,12 @@ def runHistory (r : Report) (sec line : Nat) (kind : String) (n : Nat) (obs : Li
     if bad then break
     match kv? [tok] "free", kv? [tok] "gauge" with
     | some v, _ =>
-      match v.toNat? with
-      | some k => free := some k
-      | none => r := r.mismatch sec line "free=<nat>" tok; bad := true
+      -- mr / fx: the limiting channel is a local variable of the library function, nothing to measure afterwards
+      if v = "unobservable" ∧ (kind = "mr" ∨ kind = "fx") then freeSkip := true
+      else
+        match v.toNat? with
+        | some k => free := some k
+        | none => r := r.mismatch sec line "free=<nat>" tok; bad := true
     | _, some v =>
       match v.toNat? with
       | some k =>
@@ -131,7 +135,7 @@ def runHistory (r : Report) (sec line : Nat) (kind : String) (n : Nat) (obs : Li
         | .malformed msg => r := r.mismatch sec line "well-formed history" msg; bad := true
         | .violation msg => r := r.violation sec line s!"kind={kind} {msg}"; bad := true
   if !bad then
-    match free with
+    match (if freeSkip then some n else free) with
     | none => r := r.mismatch sec line "free=<k>" "missing"
     | some k =>
       match m.final k with
